@@ -482,7 +482,7 @@ def F8(m, R):
                         out.add(e[0])
                 return out
             if f.name == '__iadd__' and isinstance(x, ast.Compare) and isinstance(x.ops[0], (ast.Eq, ast.NotEq)) and \
-                    'Self' in (roots(lrefs) | roots(rrefs)) and any(r0.startswith('Arg:') for r0 in roots(lrefs) | roots(rrefs)):
+                    'Self' in (roots(lrefs) | roots(rrefs)) and any(isinstance(sd, ast.Subscript) and isinstance(sd.slice, ast.Slice) for sd in (x.left, x.comparators[0])):
                 R.ok(f, x, 'declared seam merge: stop markers of the receiver are compared by value with start markers of the other operand', construct=cons)
                 continue
             if f.name == 'to_str' and isinstance(x, ast.Compare) and isinstance(x.ops[0], (ast.Eq, ast.NotEq)) and \
